@@ -51,8 +51,19 @@ def run(ctx, repo):
         if kind != 'dead' and (kind, key) not in seen:
             seen.add((kind, key))
             ctx.finding('R1', '%s::scores %s::%s' % (BUL, key, kind), BUL, None, msg, w)
-    for msg in tables.bulgarian_clamps(repo):
-        ctx.finding('R1', '%s::score::clamp orientation' % BUL, BUL, None, msg)
+    try:
+        for msg in tables.bulgarian_clamps(repo):
+            ctx.finding('R1', '%s::score::clamp orientation' % BUL, BUL, None, msg)
+    except AnalysisError as e_:
+        ctx.info('clamp arms not in the recognised shape (%s); decided by the decision table below' % e_)
+    # decision table of score() over the complete tabulated domain and the marks beyond both ends (the function is folded)
+    dt, n_dt = tables.bulgarian_decision_table(repo)
+    ctx.count('Bulgarian (table, mark) cells folded through score()', n_dt)
+    ctx.floor('Bulgarian decision-table cells', n_dt, 3000)
+    for key_, msg_, w_ in dt:
+        ctx.finding('R1', '%s::score::decision table %s' % (BUL, key_), BUL, None, msg_, w_)
+    if not dt:
+        ctx.ok('R1', 'score() equals the table on all %d tabulated marks and is 0 / 150 beyond the worst / best end' % n_dt)
     if not seen:
         ctx.ok('R1', 'Sportshall (%d cells) and Bulgarian (%d cells) tables ordered and bounded' % (n_sh, n_b))
     ctx.count('table cells checked', n_sh + n_b)
@@ -219,6 +230,8 @@ def run(ctx, repo):
             ctx.finding('R4', '%s::%s::timed marks not parsed as m:ss' % (rel_, q_), rel_, f_.lineno,
                         '%s no longer converts the mark of its timed events with parse_hms; its tables hold times of a minute and more, and the '
                         "documented text form '1:55.31' is refused by float()" % q_, "'1:55.31'")
+    from .c06 import parse_value_guards
+    parse_value_guards(ctx, repo, 'R4')
     # ---- R7 formula shape: the symbolic normal form of each linear / piecewise-linear formula equals the reference form
     import json as _json
     import os as _os
